@@ -562,9 +562,10 @@ Section WithEnv.
   (* from the guard of the theorem to `compat` *)
   Lemma guard_compat : forall fs pre f post,
     fs = pre ++ f :: post -> silently_lost E fs (List.length pre) f = false ->
+    is_tag param_tags f && existsb (fun g => is_tag param_tags g && same_name f g) post = false ->
     (forall g, In g post -> compat f g) /\ is_var_tag (f_tag f) = false.
   Proof.
-    intros fs pre f post Hfs Hg. unfold silently_lost in Hg.
+    intros fs pre f post Hfs Hg Hlater. unfold silently_lost in Hg.
     assert (Hl : skipn (S (List.length pre)) fs = post).
     { subst fs. replace (S (List.length pre)) with (List.length (pre ++ [f])) by (rewrite app_length; cbn; lia).
       replace (pre ++ f :: post) with ((pre ++ [f]) ++ post) by (rewrite <- app_assoc; reflexivity).
@@ -579,8 +580,7 @@ Section WithEnv.
     - intros Tf Tg Sn. match goal with H : is_tag ["type"%string] f && existsb _ post = false |- _ => rename H into Hb end.
       rewrite Tf in Hb. cbn [andb] in Hb. rewrite <- not_true_iff_false in Hb. apply Hb.
       apply existsb_exists. exists g. split; [exact Hin|]. rewrite Tg, Sn. reflexivity.
-    - intros Tf Tg Sn. match goal with H : is_tag param_tags f && existsb _ post = false |- _ => rename H into Hb end.
-      rewrite Tf in Hb. cbn [andb] in Hb. rewrite <- not_true_iff_false in Hb. apply Hb.
+    - intros Tf Tg Sn. rewrite Tf in Hlater. cbn [andb] in Hlater. rewrite <- not_true_iff_false in Hlater. apply Hlater.
       apply existsb_exists. exists g. split; [exact Hin|]. rewrite Tg, Sn. reflexivity.
   Qed.
 
@@ -592,11 +592,12 @@ Section WithEnv.
   (* the state after all the fields: field i is where `placed` says, or was reported; no index occurs twice *)
   Theorem handled_placed : forall fs pre f post,
     is_function_obj E = true -> fs = pre ++ f :: post -> silently_lost E fs (List.length pre) f = false ->
+    is_tag param_tags f && existsb (fun g => is_tag param_tags g && same_name f g) post = false ->
     let st := handle_all E 0 fs (init_state E) in
     placed (List.length pre) f st \/ reported_at (List.length pre) (st_reports st).
   Proof.
-    intros fs pre f post Hfun Hfs Hg st.
-    destruct (guard_compat fs pre f post Hfs Hg) as [Hc Hv].
+    intros fs pre f post Hfun Hfs Hg Hlater st.
+    destruct (guard_compat fs pre f post Hfs Hg Hlater) as [Hc Hv].
     subst st. rewrite Hfs. rewrite handle_all_app. cbn [handle_all plus].
     destruct (handle_places (List.length pre) f (handle_all E 0 pre (init_state E)) Hfun (not_elsewhere f Hv)) as [Hp | Hr].
     - left. apply handle_all_placed; assumption.
@@ -1126,19 +1127,25 @@ Section Routed.
     intros fs. unfold render, final_state. unfold is_function_obj in Hfun. destruct (e_obj E); try discriminate. reflexivity.
   Qed.
 
-  Theorem fields_routed : forall fs i f,
-    no_silent_class E fs -> nth_error fs i = Some f ->
+  (* the case where no later field documents the same parameter *)
+  Theorem fields_routed_nodup : forall fs i f,
+    silently_lost E fs i f = false -> nth_error fs i = Some f ->
+    is_tag param_tags f && existsb (fun g => is_tag param_tags g && same_name f g) (skipn (S i) fs) = false ->
     routed i f (fst (fst (render E fs))) (snd (fst (render E fs))).
   Proof.
-    intros fs i f Hguard Hnth. rewrite render_function. cbn [fst snd].
-    pose proof (Hguard i f Hnth) as Hg.
+    intros fs i f Hg Hnth Hlater0. rewrite render_function. cbn [fst snd].
     destruct (nth_error_split fs i Hnth) as (pre & post & Hfs & Hlen).
+    assert (Hlater : is_tag param_tags f && existsb (fun g => is_tag param_tags g && same_name f g) post = false).
+    { replace post with (skipn (S i) fs); [exact Hlater0|].
+      subst fs i. replace (S (List.length pre)) with (List.length (pre ++ [f])) by (rewrite app_length; cbn; lia).
+      replace (pre ++ f :: post) with ((pre ++ [f]) ++ post) by (rewrite <- app_assoc; reflexivity).
+      rewrite skipn_app, skipn_all, Nat.sub_diag. reflexivity. }
     set (st := handle_all E 0 fs (init_state E)).
     destruct (resolve_types_spec E st) as (descs & Hres & HU & HP & HT). rewrite Hres.
     rewrite <- Hlen in Hg.
-    pose proof (handled_placed E fs pre f post Hfun Hfs Hg) as Hplaced. cbv zeta in Hplaced. fold st in Hplaced.
+    pose proof (handled_placed E fs pre f post Hfun Hfs Hg Hlater) as Hplaced. cbv zeta in Hplaced. fold st in Hplaced.
     rewrite Hlen in Hplaced, Hg.
-    destruct Hplaced as [Hp | Hr]; [|right; exact Hr].
+    destruct Hplaced as [Hp | Hr]; [|right; left; exact Hr].
     left.
     pose proof (final_total_le_1 E fs i) as Htot. fold st in Htot.
     specialize (HU i).
@@ -1211,9 +1218,10 @@ End Routed.
 
 Lemma routed_routedb : forall i f secs reps, routed i f secs reps -> routedb i f secs reps = true.
 Proof.
-  intros i f secs reps [(e & He & H1 & H2) | (r & Hr & Hi)]; unfold routedb.
+  intros i f secs reps [(e & He & H1 & H2) | [(r & Hr & Hi) | Hd]]; unfold routedb.
   - rewrite He, H1, H2. reflexivity.
-  - apply orb_true_iff. right. apply existsb_exists. exists r. split; [exact Hr | apply Nat.eqb_eq; exact Hi].
+  - apply orb_true_iff. left. apply orb_true_iff. right. apply existsb_exists. exists r. split; [exact Hr | apply Nat.eqb_eq; exact Hi].
+  - rewrite Hd. apply orb_true_r.
 Qed.
 
 (* a @param / @arg whose name already has a description is reported *)
@@ -1486,3 +1494,153 @@ Proof.
     + right. apply orb_false_iff in Ec. destruct Ec as [_ Ec]. split; [exact Ec | reflexivity].
   - destruct ai; [right; exists new, lft, true; split; reflexivity | left; reflexivity].
 Qed.
+
+(* ======================================================================================================== *)
+(* duplicates of a parameter that pydoctor warns about (guard class (d), exact)                               *)
+(* ======================================================================================================== *)
+Lemma has_key_in : forall {V} n (d : list (pname * V)), has_key n d = true <-> In n (key_texts d).
+Proof.
+  intros V n d. unfold has_key, key_texts. rewrite existsb_exists. split.
+  - intros (e & He & Ht). apply text_eqb_eq in Ht. apply in_map_iff. exists e. split; assumption.
+  - intro H. apply in_map_iff in H. destruct H as (e & He & Hin). exists e. split; [exact Hin|]. rewrite He. apply text_eqb_refl.
+Qed.
+
+Section DupWarned.
+  Variable E : env.
+  Hypothesis Hfun : is_function_obj E = true.
+
+  Lemma has_key_step : forall n k g st, has_key n (st_types st) = true -> has_key n (st_types (handle E k g st)) = true.
+  Proof.
+    intros n k g st H. apply has_key_in. apply has_key_in in H. destruct (types_keys_step E k g st) as [x Hx].
+    rewrite Hx. apply in_or_app. left. exact H.
+  Qed.
+
+  Lemma has_key_all : forall fs n k st, has_key n (st_types st) = true -> has_key n (st_types (handle_all E k fs st)) = true.
+  Proof. induction fs as [|g fs IH]; intros n k st H; cbn [handle_all]; [exact H | apply IH; apply has_key_step; exact H]. Qed.
+
+  Lemma sig_has_key : forall n, In n (sig_names E) -> has_key n (st_types (init_state E)) = true.
+  Proof.
+    intros n H. apply has_key_in. unfold init_state, is_function_obj, sig_names, key_texts in *. cbn [st_types].
+    destruct (e_obj E); try discriminate. rewrite map_map. exact H.
+  Qed.
+
+  Lemma param_name_some : forall k g st n, arg_name g = Some n ->
+    exists n', fst (handle_param_name E k g st) = Some n' /\ pn_text n' = n.
+  Proof.
+    intros k g st n Ha. unfold arg_name in Ha. destruct (f_arg g) as [a|] eqn:Fa; [|discriminate].
+    destruct (fst (handle_param_name E k g st)) as [n'|] eqn:Hn.
+    - exists n'. split; [reflexivity|]. pose proof (param_name_text E k g st n' Hn) as H. unfold arg_name in H.
+      rewrite Fa in H. cbn in *. congruence.
+    - destruct (param_name_none E k g st Hn) as [H _]. congruence.
+  Qed.
+
+  Lemma type_adds_key : forall k g st n,
+    lookup_handler (f_tag g) handler_table = Some HType -> arg_name g = Some n ->
+    has_key n (st_types (handle E k g st)) = true.
+  Proof.
+    intros k g st n Hh Ha. pose proof (handle_effect E k g st) as HE. unfold effect in HE. rewrite Hh in HE.
+    unfold is_function_obj in Hfun. destruct (e_obj E); try discriminate.
+    destruct (param_name_some k g st n Ha) as (n' & Hn1 & Hn2). rewrite Hn1 in HE. cbn [apply_upd] in HE.
+    destruct HE as (HE & _). rewrite HE. st_simpl. apply has_key_in. rewrite dict_set_keys.
+    destruct (has_key (pn_text n') (st_types st)) eqn:Ek.
+    - rewrite app_nil_r. apply has_key_in. rewrite <- Hn2. exact Ek.
+    - apply in_or_app. right. left. exact Hn2.
+  Qed.
+
+  Lemma keyword_reported : forall k f st n,
+    lookup_handler (f_tag f) handler_table = Some HKeyword ->
+    fst (handle_param_name E k f st) = Some n -> has_key (pn_text n) (st_types st) = true ->
+    exists r, In r (st_reports (handle E k f st)) /\ rp_kind r = RAsKeyword /\ rp_name r = pn_text n.
+  Proof.
+    intros k f st n Hh Hn Hk. unfold handle. rewrite Hh. unfold handle_keyword.
+    pose proof (param_name_same E k f st) as HS.
+    destruct (handle_param_name E k f st) as [nm st1]; cbn [fst snd] in *. subst nm.
+    st_simpl. destruct HS as (HS & _). rewrite HS, Hk.
+    eexists. split; [st_simpl; apply in_or_app; right; left; reflexivity | split; reflexivity].
+  Qed.
+
+  Lemma reports_in_step : forall r k g st, In r (st_reports st) -> In r (st_reports (handle E k g st)).
+  Proof. intros r k g st H. destruct (handle_reports_mono E k g st) as [x Hx]. rewrite Hx. apply in_or_app. left. exact H. Qed.
+
+  Lemma reports_in_all : forall fs r k st, In r (st_reports st) -> In r (st_reports (handle_all E k fs st)).
+  Proof. induction fs as [|g fs IH]; intros r k st H; cbn [handle_all]; [exact H | apply IH; apply reports_in_step; exact H]. Qed.
+
+  (* a later field for the same parameter that pydoctor warns about leaves a warning naming the parameter *)
+  Theorem dup_warned_reported : forall fs i f j,
+    nth_error fs i = Some f -> i < j -> is_tag param_tags f = true -> dup_warned_at E fs f j = true ->
+    dup_reportedb f (st_reports (handle_all E 0 fs (init_state E))) = true.
+  Proof.
+    intros fs i f j Hi Hij Hpf Hw. unfold dup_warned_at in Hw.
+    destruct (nth_error fs j) as [g|] eqn:Hj; [|discriminate].
+    apply andb_true_iff in Hw. destruct Hw as [Hw Hwhy]. apply andb_true_iff in Hw. destruct Hw as [Hpg Hsame].
+    unfold same_name in Hsame. destruct (arg_name f) as [n|] eqn:Haf; [|discriminate].
+    destruct (arg_name g) as [ng|] eqn:Hag; [|discriminate]. apply text_eqb_eq in Hsame. subst ng.
+    destruct (nth_error_split fs j Hj) as (pre2 & post2 & Hfs & Hlen).
+    (* f is among the fields before g *)
+    assert (Hfin : In f pre2).
+    { assert (Hi' : nth_error pre2 i = Some f) by (rewrite Hfs in Hi; rewrite nth_error_app1 in Hi by lia; exact Hi).
+      apply nth_error_In in Hi'. exact Hi'. }
+    set (stj := handle_all E 0 pre2 (init_state E)).
+    assert (Hnamed : pdesc_named n stj = true).
+    { apply in_split in Hfin. destruct Hfin as (l1 & l2 & ->). unfold stj. rewrite handle_all_app. cbn [handle_all].
+      apply pdesc_named_all. apply paramish_named; assumption. }
+    destruct (param_name_some (List.length pre2) g stj n Hag) as (n' & Hn1 & Hn2).
+    assert (Hrep : exists r, In r (st_reports (handle E (List.length pre2) g stj)) /\ rkind_dup (rp_kind r) = true /\ rp_name r = n).
+    { destruct (lookup_handler (f_tag g) handler_table) as [h|] eqn:Hh.
+      - destruct (known_handler_facts _ _ Hh) as (_ & _ & Ft & Fp & _). pose proof (keyword_handler_fact _ _ Hh) as Fk.
+        change (tag_is param_tags (f_tag g)) with (is_tag param_tags g) in Fp. rewrite Hpg in Fp.
+        change (tag_is ["keyword"%string] (f_tag g)) with (is_tag ["keyword"%string] g) in Fk.
+        destruct h; try discriminate Fp.
+        + (* @param / @arg *)
+          rewrite <- Hn2 in Hnamed. destruct (dup_param_reported E _ g stj n' Hh Hn1 Hnamed) as (r & H1 & _ & H3 & H4).
+          exists r. split; [exact H1|]. split; [rewrite H3; reflexivity | congruence].
+        + (* @keyword *)
+          rewrite Fk in Hwhy. cbn [handler_eqb negb orb] in Hwhy.
+          assert (Hkey : has_key (pn_text n') (st_types stj) = true).
+          { rewrite Hn2. apply orb_true_iff in Hwhy. destruct Hwhy as [Hs | Ht].
+            - unfold in_sig in Hs. rewrite Haf in Hs. apply existsb_exists in Hs. destruct Hs as (x & Hx & Hxe).
+              apply text_eqb_eq in Hxe. subst x. unfold stj. apply has_key_all. apply sig_has_key. exact Hx.
+            - apply existsb_exists in Ht. destruct Ht as (h & Hh1 & Hh2). apply andb_true_iff in Hh2. destruct Hh2 as [Hty Hsn].
+              rewrite Hfs in Hh1. rewrite <- Hlen in Hh1. rewrite firstn_app, Nat.sub_diag, firstn_all in Hh1. cbn [firstn] in Hh1.
+              rewrite app_nil_r in Hh1.
+              unfold same_name in Hsn. rewrite Haf in Hsn. destruct (arg_name h) as [nh|] eqn:Hah; [|discriminate].
+              apply text_eqb_eq in Hsn. subst nh.
+              assert (Hhh : lookup_handler (f_tag h) handler_table = Some HType).
+              { destruct (lookup_handler (f_tag h) handler_table) as [hh|] eqn:Hl.
+                - destruct (known_handler_facts _ _ Hl) as (_ & _ & Ft' & _).
+                  change (tag_is ["type"%string] (f_tag h)) with (is_tag ["type"%string] h) in Ft'. rewrite Hty in Ft'.
+                  destruct hh; try discriminate Ft'. reflexivity.
+                - destruct (unknown_handler_facts _ Hl) as (_ & _ & Ft' & _).
+                  change (tag_is ["type"%string] (f_tag h)) with (is_tag ["type"%string] h) in Ft'. congruence. }
+              apply in_split in Hh1. destruct Hh1 as (l1 & l2 & ->). unfold stj. rewrite handle_all_app. cbn [handle_all].
+              apply has_key_all. apply type_adds_key; assumption. }
+          destruct (keyword_reported _ g stj n' Hh Hn1 Hkey) as (r & H1 & H2 & H3).
+          exists r. split; [exact H1|]. split; [rewrite H2; reflexivity | congruence].
+      - destruct (unknown_handler_facts _ Hh) as (_ & _ & _ & Fp & _).
+        change (tag_is param_tags (f_tag g)) with (is_tag param_tags g) in Fp. congruence. }
+    destruct Hrep as (r & Hr1 & Hr2 & Hr3).
+    unfold dup_reportedb. rewrite Hpf, Haf. cbn [andb]. apply existsb_exists. exists r. split.
+    - rewrite Hfs, handle_all_app. cbn [handle_all plus]. apply reports_in_all. exact Hr1.
+    - rewrite Hr2, Hr3. cbn [andb]. apply text_eqb_refl.
+  Qed.
+
+  (* C09_fields_routed with the exact guard *)
+  Theorem fields_routed : forall fs i f,
+    no_silent_class E fs -> nth_error fs i = Some f ->
+    routed i f (fst (fst (render E fs))) (snd (fst (render E fs))).
+  Proof.
+    intros fs i f Hguard Hnth. pose proof (Hguard i f Hnth) as Hg.
+    destruct (is_tag param_tags f && existsb (fun g => is_tag param_tags g && same_name f g) (skipn (S i) fs)) eqn:Hlater.
+    - (* a later field documents the same parameter: the guard says pydoctor warns about one of them *)
+      right. right. rewrite (render_function E Hfun). cbn [fst snd].
+      assert (Hw : later_dup_warned E fs i f = true).
+      { unfold silently_lost in Hg. repeat (apply orb_false_iff in Hg; destruct Hg as [Hg ?]).
+        match goal with H : _ && _ && negb (later_dup_warned E fs i f) = false |- _ => rename H into Hd end.
+        rewrite Hlater in Hd. cbn [andb] in Hd. apply negb_false_iff in Hd. exact Hd. }
+      unfold later_dup_warned in Hw. apply existsb_exists in Hw. destruct Hw as (j & Hj1 & Hj2).
+      apply in_seq in Hj1. apply andb_true_iff in Hlater. destruct Hlater as [Hpf _].
+      destruct (resolve_types_spec E (handle_all E 0 fs (init_state E))) as (descs & Hres & _). rewrite Hres. st_simpl.
+      apply (dup_warned_reported fs i f j Hnth); [lia | exact Hpf | exact Hj2].
+    - apply (fields_routed_nodup E Hfun fs i f Hg Hnth Hlater).
+  Qed.
+End DupWarned.
